@@ -6,7 +6,7 @@ import Vita.C03.Model
 
 namespace Vita.C03
 
-theorem opBytes_inj {a b : Nat} (ha : a < 65536) (hb : b < 65536)
+theorem opBytes_inj {a b : Nat} (ha : a < 4294967296) (hb : b < 4294967296)
     (h : opBytes a = opBytes b) : a = b := by
   simp only [opBytes, List.cons.injEq, and_true] at h
   omega
@@ -21,7 +21,7 @@ theorem intBytes_inj {a b : Nat} (ha : a < 2 ^ 32) (hb : b < 2 ^ 32)
   simp only [intBytes, List.cons.injEq, and_true] at h
   omega
 
-theorem opBytes_length (a : Nat) : (opBytes a).length = 2 := rfl
+theorem opBytes_length (a : Nat) : (opBytes a).length = 4 := rfl
 theorem parBytes_length (a : Nat) : (parBytes a).length = 8 := rfl
 theorem intBytes_length (a : Nat) : (intBytes a).length = 4 := rfl
 
